@@ -165,10 +165,19 @@ META["C05"] = dict(
 META["C06"] = dict(
     engine="lean+harness(sched)",
     design_ref="DESIGN.md section 5, C06",
-    technique="as C05 with both collectors as scheduled threads; collector sub-steps are scheduling points; directed replays of the known windows",
+    technique="Lean 4 proof of the sequentialised windows (whole and cut GC cycles between calls: C04; the relocation window with arbitrary calls between copy and re-pointing: C06W) over the byte-level collector model + real schedules with both collectors as scheduled threads (collector sub-steps and lock acquisitions as scheduling points, window schedules) + directed replays of the known windows",
     text="As C05 with primary and index GC cycles running as a scheduled thread over a store prepared with garbage in several files; "
-         "every collector sub-step is a scheduling point. Directed schedules in the corpus reconfirm the known windows D18a/D18b on every "
-         "run. The per-step state-safety theorem (C06_state_safe) reuses the C04 step lemmas and is not yet proved.",
+         "every collector sub-step is a scheduling point; 40% window schedules (the collector runs alone except for one window at a "
+         "chosen point in which the other threads run whole calls). PROVED: C04_store_refines_map (GC cycles, whole or cut at any poll, "
+         "between calls are invisible) and, for the most dangerous window (Sth/Props/C06W.lean over Sth/Model/GCSplit.lean, whose two "
+         "halves compose to the model's `relocate` by C06_relocate_split): C06_relocation_window_invisible (any record span of a closed "
+         "file, ANY list of Put/Get/Has/GetSize/Remove/Flush/iteration calls between the collector's copy and its re-pointing: every "
+         "call returns what the map returns, afterwards the store satisfies the GC invariant for the map AFTER the window - a key "
+         "overwritten or removed inside the window is not resurrected, an untouched key names the copy), C06_window_reads_after_finish, "
+         "C06_window_exactly_once_moved, decide witnesses that the unconditional re-pointing (defect D29, repaired) and the weakened "
+         "comparison of a seeded change resurrect the old value, and C06_refused_path_records_old_twice (finding D32: on the refused path "
+         "the old location, already recorded by the writer, is recorded again). Directed schedules in the corpus reconfirm the known "
+         "windows D18a/D18b (a READER holding a position across a collector step) on every run; those are outside the theorems.",
     note=SCHED_NOTE,
 )
 META["C12"] = dict(
